@@ -328,6 +328,37 @@ def phase_a(task, col):
                     check_working(m5, cs, col, dict(fault='all_slow'), 'all_slow')
             finally:
                 restore()
+        # entry-point order: a scenario-filtered matrix query issued first on a cold cache directory must not change
+        # what selection (which reads the same on-disk matrix caches) sees afterwards
+        pats_ = cs['patterns'] if cs.get('patterns') is not None else None
+        if pats_ and len(pats_) > 1 and (i % 2) == 0:
+            os.environ['XDG_CACHE_HOME'] = os.path.join(main_cache, 'scratch_order')
+            try:
+                g0 = mx.AggregateAssignmentMatrixGenerator(B.make_settings(cs))
+                g0.reset_agg_matrix_cache()
+                p0 = pats_[i % len(pats_)]
+                n0 = sum(1 for _ in g0.iter_matrices(existence=B.make_existence(p0)))
+                col.count('monitor_filtered_first_evaluations')
+                if n0 != len(R.settings_matrices(cs, p0)):
+                    col.violation('matrix_cache_result_differs', cs, {'pattern': p0, 'n_ref': len(R.settings_matrices(cs, p0)),
+                                                                      'n_got': n0, 'via': 'filtered_first_query'}, [])
+                m6, _ = select(cs, col, dict(order='filtered_first'), timeout=10, cache=True, label='filtered_first')
+                if m6 is not None:
+                    check_working(m6, cs, col, dict(order='filtered_first'), 'filtered_first')
+                agg6 = mx.AggregateAssignmentMatrixGenerator(B.make_settings(cs)).get_agg_matrix(cache=True)
+                for p, ref in zip(pats_, refs):
+                    arr = agg6.get(B.make_existence(p))
+                    got = set() if arr is None else {tuple(tuple(int(v) for v in row) for row in m) for m in arr}
+                    if got != set(ref):
+                        col.violation('matrix_cache_result_differs', cs, {'pattern': p, 'n_ref': len(ref),
+                                                                          'n_got': len(got),
+                                                                          'via': 'after_filtered_first_query'}, [])
+                        break
+                g0.reset_agg_matrix_cache()
+            except Exception as e:  # noqa
+                info = D.exc_info(e)
+                col.violation('selection_failed', cs, {'exc': info, 'via': 'filtered_first'}, [],
+                              where={'exc': info['type'], 'site': info['site'], 'via': 'filtered_first'})
         os.environ['XDG_CACHE_HOME'] = main_cache
         # matrix cache: cold/warm aggregate matrices equal the reference
         g = mx.AggregateAssignmentMatrixGenerator(B.make_settings(cs))
